@@ -21,6 +21,7 @@ RULE = (
     "file); an interruption is a kill (nothing of the script runs afterwards), a KeyboardInterrupt (the script's own handlers run; the script is entered through its main()) or a failing pipeline command; exhaustive part: every single interruption point of the listed configurations (by kill and by KeyboardInterrupt; by a failing command for three configurations in the quick tier, all in the thorough tier); generated part: drawn configurations with 1..2 crash points. Non-trivial = "
     "a crash strictly inside a step (job directory exists, last file not yet published), or in the first step of a new iteration, or a second crash during recovery. "
     "distinct = distinct (configuration, crash points)."
+    ' A quarter of the configurations carry pass-through options on the command line (--excludes in both spellings, unrelated options).'
 )
 ASSUMPTIONS = [
     "nextflow itself is not run: its observable contract (files under --outdir/<name>/, published atomically in an order consistent with the process DAG of the .nf sources) is simulated",
@@ -47,6 +48,9 @@ CONFIGS_QUICK = [
     {"mode": "prospective", "batch": 2, "plates": 4, "n_chains": 1, "n_chunks": 1, "order_salt": "b", "metadata_position": "first", "invocations": 2},
     {"mode": "prospective", "batch": 3, "plates": 5, "n_chains": 2, "n_chunks": 1, "order_salt": "d", "metadata_position": None, "invocations": 1},
     {"mode": "retrospective", "batch": 2, "plates": 4, "n_chains": 1, "n_chunks": 1, "order_salt": "e", "metadata_position": None, "relative_outdir": True},
+    # options the script does not know and hands through to every pipeline launch (among them one it also sets itself)
+    {"mode": "retrospective", "batch": 3, "plates": 6, "n_chains": 1, "n_chunks": 1, "order_salt": "a", "metadata_position": None, "user_args": ["--excludes", "2"]},
+    {"mode": "prospective", "batch": 3, "plates": 6, "n_chains": 1, "n_chunks": 1, "order_salt": "c", "metadata_position": "last", "invocations": 2, "user_args": ["--excludes=1,4", "--max_cpus", "3"]},
 ]
 
 
@@ -125,6 +129,9 @@ def _case(draw):
         cfg["invocations"] = draw(st.integers(1, 3))
     if draw(st.integers(0, 3)) == 0:
         cfg["relative_outdir"] = True  # --outdir relative to the directory the script is started in (not the repository root)
+    if draw(st.integers(0, 3)) == 0:
+        # pass-through options of the operator's command line (the pipeline honours the last occurrence of an option)
+        cfg["user_args"] = draw(st.sampled_from([["--excludes", "0"], ["--excludes=1"], ["--excludes", "2,3"], ["--max_cpus", "2", "--excludes=0"], ["--resume_note", "x y"]]))
     c1 = draw(st.integers(0, 400))
     crashes = [c1]
     if draw(st.booleans()):
@@ -168,7 +175,7 @@ def run_scenario(cfg, crashes, style="kill"):
         orch.subprocess, orch.os, orch.shutil = pipeline, os_proxy, sh_proxy
         return orch
 
-    extra = ["--n_chains", str(cfg["n_chains"]), "--n_chunks", str(cfg["n_chunks"])]
+    extra = ["--n_chains", str(cfg["n_chains"]), "--n_chunks", str(cfg["n_chunks"])] + list(cfg.get("user_args", []))
     problem = None
     invocations_done = 0
     target_inv = cfg.get("invocations", 1)
